@@ -29,7 +29,7 @@ func (d Dict) render(f *File, w io.Writer, s *Statement) error {
 	}
 	keys := []kv{}
 	for k, v := range d {
-		if k.isNull(f) || v.isNull(f) {
+		if k == nil || v == nil || k.isNull(f) || v.isNull(f) {
 			continue
 		}
 		// Aliases are chosen when a package is first rendered, so the order in which the keys are
@@ -88,6 +88,10 @@ func (d Dict) isNull(f *File) bool {
 		return true
 	}
 	for k, v := range d {
+		if k == nil || v == nil {
+			// a nil key or value renders nothing, so the pair is omitted
+			continue
+		}
 		if !k.isNull(f) && !v.isNull(f) {
 			// if any of the key/value pairs are both not null, the Dict is not
 			// null
